@@ -12,7 +12,7 @@ EXPLANATION = ("U1 panic-source cone (MIR call graph) from the eight public cons
                "percent-decoded before connecting, a pre-opened Unix stream is accepted and a TCP/invalid one is MismatchedStreamType; the "
                "TCP constructor accepts a pre-opened TCP stream and rejects the others; U4 when a connection timeout is set the future of "
                "the whole TCP constructor (which contains StartTLS and the handshake) is wrapped in tokio::time::timeout with that duration "
-               "and expiry is propagated as an error. Not decided: unreachable endpoints (OS behaviour); the url crate's parser.")
+               "and expiry is propagated as an error; U6 every builder method of the settings struct, evaluated, returns `self` with exactly its own field replaced (a method that resets another field drops settings made before it in the chain). Not decided: unreachable endpoints (OS behaviour); the url crate's parser.")
 TRUSTED = ['url crate parsing', 'OS connect behaviour', 'rules/triage/C18.tsv']
 UNDECIDED = ['unreachable endpoints (OS)', 'exotic URL strings inside the url crate']
 ASSUMPTIONS = ['code behind the operation issue point / driver loop is driven by server data, not by URL or settings (C11)']
@@ -36,6 +36,32 @@ def one_param(ctx, f, B, what, pred):
     ps = sem.params_of_type(f, B, pred)
     ctx.add('U0.parameter', '%s of %s' % (what, B.path.rsplit('::', 1)[-1]), loc(B.root), len(ps) == 1, 'no single parameter of type %s: anchor lost' % what)
     return ('param', ps[0] if ps else what)
+
+
+def check_setters(ctx, f, R):
+    """U6 - "every settings combination": the settings are assembled by chaining the public builder methods, in any order, so a
+    combination reaches connection setup only if every builder method leaves all the *other* settings as it found them.  Each public
+    `fn(LdapConnSettings, T) -> LdapConnSettings` is evaluated (anchors.ConnSettings.read_setter): the value it returns, taken apart
+    field by field, is `self`'s own field everywhere except in the one field that receives the argument.  A method that fills
+    another field from somewhere else (`..Default::default()` as the base of a struct-update, a constant) silently undoes what was
+    requested before it in the chain: the timeout, StartTLS, the verification setting, the caller's connector."""
+    n = 0
+    for p in sorted(R.effects):
+        eff = R.effects[p]
+        nm = p.rsplit('::', 1)[-1]
+        where = loc(f.body(p)['body'])
+        if 'unreadable' in eff:
+            ctx.fail('U6.setter-preserves-other-settings', nm, where, 'the builder method %s could not be read as a settings value built from `self` and its argument (%s): what it does to the other settings is not decided' % (nm, eff['unreadable'][:120]))
+            continue
+        n += 1
+        lost = []
+        for F, t in sorted(eff['resets'].items()):
+            role = R.role_of_field(F)
+            lost.append('%s%s becomes %s' % (F, ' (what %s recorded)' % R.setter[role].rsplit('::', 1)[-1] if role in R.setter else '', absx.fmt(t)[:30]))
+        ctx.add('U6.setter-preserves-other-settings', nm, where, not lost,
+                '%s() does not only set its own field `%s`: %s - what was set before it in the builder chain is silently dropped (LdapConnSettings::new().<the other setter>(x).%s(..) behaves as if <the other setter> had never been called)' % (
+                    nm, eff['own'], '; '.join(lost), nm))
+    ctx.floor('U6', 'builder methods of the settings struct evaluated', n, 2)      # without a TLS back end: set_conn_timeout, set_std_stream
 
 def run(ctx):
     f = ctx.facts
@@ -66,6 +92,7 @@ def run(ctx):
     # ------------------------------------------------------------------ U2 TCP constructor paths
     R = anchors.ConnSettings(f)         # the settings' private fields, each anchored as the field its public setter writes
     F_STREAM, F_TIMEOUT = R.field.get('std-stream'), R.field.get('conn-timeout')
+    check_setters(ctx, f, R)
     ctx.add('U0.settings-fields', R.ST, '', F_STREAM is not None and F_TIMEOUT is not None, 'set_std_stream / set_conn_timeout do not write a field of the settings: anchor lost')
     is_url = lambda t: t == 'url::Url'
     is_settings = lambda t: t == R.ST
